@@ -34,10 +34,11 @@ theorem reno_new_ack (c : CCState ℚ) (rtt now : ℚ) :
     split_ifs <;> rfl
   · intro h; exact reno_ack_safe c rtt now (Or.inr (ne_of_gt h))
 
-/-- the same at the sender: a new ACK outside fast recovery (`dupack < 3`: none, one or two duplicates counted, so
+/-- the same at the sender: a new ACK (`ackno > last_ack`; an ACK *below* the acknowledged mark was overtaken on the way back
+and is ignored, `stale_ack_ignored`) outside fast recovery (`dupack < 3`: none, one or two duplicates counted, so
 nothing is deflated) on a Reno sender grows the *current* window by the Reno rule and clears the duplicate count -/
 theorem reno_new_ack_at_sender (s : Sender ℚ) (a : AckIn ℚ) (h : Inv s) (hk : s.kind = .reno) (hok : AckOk s a)
-    (hnew : a.ackno ≠ s.last_ack) (h0 : s.dupack < 3) :
+    (hnew : s.last_ack < a.ackno) (h0 : s.dupack < 3) :
     ∃ s', s.step (.ack a) = .ok s' [] ∧ s'.cc.cwnd = renoGrow s.cc.mss s.cc.cwnd s.cc.ssthresh ∧
       s'.cc.ssthresh = s.cc.ssthresh ∧ s'.last_ack = a.ackno ∧ s'.dupack = 0 := by
   obtain ⟨T, S, r, _⟩ := ackStep_new_spec s a h.cc h.keys h.nodup hok hnew
@@ -91,7 +92,7 @@ theorem more_dupacks (s : Sender ℚ) (a : AckIn ℚ) (hok : AckOk s a) (hd : a.
 (generated `dupack_over`) and is then counted like any new ACK**: the resulting window is `ack_received` applied to
 the deflated state — for Reno and for CUBIC that is `ssthresh + MSS`, because the deflated window satisfies
 `cwnd ≤ ssthresh` — and `dupack` returns to 0. -/
-theorem new_ack_after_dupacks (s : Sender ℚ) (a : AckIn ℚ) (h : Inv s) (hok : AckOk s a) (hnew : a.ackno ≠ s.last_ack)
+theorem new_ack_after_dupacks (s : Sender ℚ) (a : AckIn ℚ) (h : Inv s) (hok : AckOk s a) (hnew : s.last_ack < a.ackno)
     (hdup : 3 ≤ s.dupack) :
     (CongestionControl.dupack_over s.cc = { s.cc with cwnd := s.cc.ssthresh }) ∧
     ∃ s', s.step (.ack a) = .ok s' [] ∧ s'.dupack = 0 ∧ s'.last_ack = a.ackno ∧
@@ -108,7 +109,7 @@ theorem new_ack_after_dupacks (s : Sender ℚ) (a : AckIn ℚ) (h : Inv s) (hok 
 `ack_received` applied to the *unchanged* state — exactly what the same ACK does with `dupack = 0` — so for both
 classes slow start (`cwnd ≤ ssthresh`) adds one MSS, and Reno congestion avoidance adds `MSS·MSS/cwnd`; `ssthresh`
 stays and `dupack` returns to 0.  (No fast retransmit has happened, so there is no inflated window to take back.) -/
-theorem new_ack_after_few_dupacks (s : Sender ℚ) (a : AckIn ℚ) (h : Inv s) (hok : AckOk s a) (hnew : a.ackno ≠ s.last_ack)
+theorem new_ack_after_few_dupacks (s : Sender ℚ) (a : AckIn ℚ) (h : Inv s) (hok : AckOk s a) (hnew : s.last_ack < a.ackno)
     (hdup : 0 < s.dupack ∧ s.dupack < 3) :
     ∃ s', s.step (.ack a) = .ok s' [] ∧ s'.dupack = 0 ∧ s'.last_ack = a.ackno ∧
       s'.cc = CC.ackReceived s.kind s.cc (TCPPacketGenerator.put_sample_rtt s.now a.ptime) s.now ∧
@@ -226,7 +227,7 @@ theorem cwnd_ge_mss_step (s s' : Sender ℚ) (a : Act ℚ) (outs : List (Tx ℚ)
 /-- **After every new ACK `RTO = srtt + 4·rttvar`, with `srtt` and `rttvar` updated from that ACK's RTT sample
 `now − ack.time` with gains 1/8 and 1/4** (generated estimator block), whatever the ACK number, also right after
 duplicates. -/
-theorem rto_formula (s : Sender ℚ) (a : AckIn ℚ) (h : Inv s) (hok : AckOk s a) (hnew : a.ackno ≠ s.last_ack) :
+theorem rto_formula (s : Sender ℚ) (a : AckIn ℚ) (h : Inv s) (hok : AckOk s a) (hnew : s.last_ack < a.ackno) :
     (∀ e : RttEst ℚ, ∀ now pt : ℚ, TCPPacketGenerator.put_estimator e now pt =
       { rtt_estimate := srttNext e.rtt_estimate (now - pt),
         est_deviation := varNext e.rtt_estimate e.est_deviation (now - pt),
@@ -298,7 +299,7 @@ example : Inv (Sender.init .cubic (TCPCubic.defaults : CCState ℚ) 1 512 (some 
 
 /-- the hypotheses of `new_ack_after_few_dupacks` are met: one duplicate counted, then the ACK of the next segment -/
 example : let s : Sender ℚ := { Sender.init .cubic (TCPCubic.defaults : CCState ℚ) 1 512 none 0 with dupack := 1 }
-    Inv s ∧ AckOk s { fid := 10000, ackno := 512, pid := 0, ptime := 0 } ∧ (512 : Nat) ≠ s.last_ack ∧
+    Inv s ∧ AckOk s { fid := 10000, ackno := 512, pid := 0, ptime := 0 } ∧ s.last_ack < (512 : Nat) ∧
       (0 < s.dupack ∧ s.dupack < 3) := by
   intro s
   have hi : Inv (Sender.init .cubic (TCPCubic.defaults : CCState ℚ) 1 512 none 0) :=
